@@ -13,9 +13,9 @@ import (
 )
 
 type params struct {
-	Seed  int64 `json:"seed"`
-	Index int   `json:"index"`
-	Count int   `json:"count"`
+	Seed  int64  `json:"seed"`
+	Index int    `json:"index"`
+	Count int    `json:"count"`
 	Fixed string `json:"fixed,omitempty"`
 }
 
